@@ -106,8 +106,8 @@ Proof.
     split; [reflexivity|discriminate].
 Qed.
 
-Lemma no_validate_forall (P : bytes -> bool) l : filter is_validate l = [] ->
-  forallb (fun e => match e with CbValidate _ _ given => P given | _ => true end) l = true.
+Lemma no_validate_forall (P : bytes -> bytes -> bytes -> bool) l : filter is_validate l = [] ->
+  forallb (fun e => match e with CbValidate db user given => P db user given | _ => true end) l = true.
 Proof.
   induction l as [|e r IH]; [reflexivity|]. cbn [filter forallb]. destruct e; cbn [is_validate]; try (intros H; rewrite (IH H); reflexivity).
   discriminate.
@@ -131,16 +131,16 @@ Proof.
 Qed.
 
 Lemma oracle_C01_accept sc m pw db user given tl_ :
-  sc_auth sc = Some (m, pw) -> sent_password sc = Some given ->
+  sc_auth sc = Some (m, pw) -> sent_password sc = Some given -> sent_ident sc = Some (db, user) ->
   (m =? 1) || ((m =? 0) && bytes_eqb given pw) = true ->
   filter is_validate tl_ = [] -> existsb crashp tl_ = false ->
   oracle_C01 sc ([Out (BAuth 3); CbValidate db user given; Out (BAuth 0)] ++ tl_) = true.
 Proof.
-  intros Ha Hs Hacc T1 T2. unfold oracle_C01. rewrite Ha, (no_crash_tail _ _ T2), Hs.
+  intros Ha Hs Hi Hacc T1 T2. unfold oracle_C01. rewrite Ha, (no_crash_tail _ _ T2), Hs, Hi.
   change (fun e : ev => match e with CbValidate _ _ _ => true | _ => false end) with is_validate.
-  rewrite (forallb_app _ _ tl_), (no_validate_forall _ _ T1), filter_app, T1.
+  rewrite (forallb_app _ _ tl_), (no_validate_forall (fun db user given => _) _ T1), filter_app, T1.
   cbn [app forallb filter is_validate existsb before_auth authenticated_ev Z.eqb andb orb no_crash negb].
-  rewrite bytes_eqb_refl, !orb_false_r, Hacc. reflexivity.
+  rewrite !bytes_eqb_refl, !orb_false_r, Hacc. reflexivity.
 Qed.
 
 Theorem oracle_C01_model sc :
@@ -170,12 +170,16 @@ Proof.
     destruct (take_cstr body) as [[given x]|] eqn:E4; [|injection Ea as <- _ <-; rewrite (Tf eq_refl); exact Fail0].
     assert (Hs : sent_password sc = Some given).
     { unfold sent_password. rewrite Eu, E1, E3, E2, E4. reflexivity. }
+    assert (Hi : sent_ident sc = Some (param_get (bs "database") cparams, param_get (bs "user") cparams)).
+    { unfold sent_ident. unfold start in Es. cbn [cfg_of_case cfg_limit] in Es.
+      destruct (untyped (sc_limit sc) (sc_raw sc)) as [[bd rs]|]; [|discriminate].
+      destruct (p_u32 bd) as [[v1 a1]|]; [|discriminate]. injection Es as _ <- _. rewrite Er. reflexivity. }
     assert (Rej : (m =? 1) || ((m =? 0) && bytes_eqb given pw) = false -> (m =? 3) = false ->
                   oracle_C01 sc ([Out (BAuth 3); CbValidate (param_get (bs "database") cparams) (param_get (bs "user") cparams) given;
                                   Out (err_msg (Some e_invalid_password))] ++ [Closed]) = true).
-    { intros Hacc M3. unfold oracle_C01. rewrite Ha, Hs.
+    { intros Hacc M3. unfold oracle_C01. rewrite Ha, Hs, Hi.
       cbn [app forallb filter existsb before_auth authenticated_ev Z.eqb andb orb no_crash negb].
-      rewrite bytes_eqb_refl, !orb_false_r, Hacc, M3. reflexivity. }
+      rewrite !bytes_eqb_refl, !orb_false_r, Hacc, M3. reflexivity. }
     unfold validator in Ea.
     destruct (m =? 0) eqn:M0.
     + destruct (bytes_eqb given pw) eqn:Epw; injection Ea as <- _ <-.
@@ -185,10 +189,10 @@ Proof.
       * apply (oracle_C01_accept sc m pw); auto. rewrite M1. reflexivity.
       * rewrite (Tf eq_refl). apply Z.eqb_eq in M2. subst m. apply Rej; reflexivity.
       * rewrite (Tf eq_refl). assert (m = 3) by (apply Z.eqb_neq in M0, M1, M2; lia). subst m.
-        unfold oracle_C01. rewrite Ha, Hs.
+        unfold oracle_C01. rewrite Ha, Hs, Hi.
         cbn [app forallb filter existsb before_auth authenticated_ev Z.eqb andb orb no_crash negb].
-        rewrite bytes_eqb_refl. reflexivity.
+        rewrite !bytes_eqb_refl. reflexivity.
   - (* no authentication strategy: the oracle has nothing to demand beyond the absence of validations *)
     injection Ea as <- _ _. unfold oracle_C01. rewrite Ha, (no_crash_tail _ _ T2).
-    rewrite (forallb_app _ _ tl_), (no_validate_forall _ _ T1). reflexivity.
+    rewrite (forallb_app _ _ tl_), (no_validate_forall (fun db user given => _) _ T1). reflexivity.
 Qed.
